@@ -64,15 +64,17 @@ Definition dispatch (fn : Z) (args : list Z) : list Z :=
         ++ (match acc_out A_timetuple x with [y; m; d; hh; mi; ss; wd; yd] => [y; m; d; hh; mi; ss; yd] | l => l end)
         ++ utt
         ++ (match acc_out A_date x with t :: r => if t =? 1 then r else [-3] | l => l end)
-        ++ (match acc_out A_time x with [t; h; mi; s; us; f] => if (t =? 1) && (f =? 0) then [h; mi; s; us] else [-3] | l => l end)
+        ++ (match acc_out A_time x with [t; h; mi; s; us; f] => if t =? 1 then [h; mi; s; us; f] else [-3] | l => l end)
     | _ => [9]
     end
   | 2 (* dt_timetz *), _ =>
     match parse_val 1 args with
     | Some (x, []) =>
-      match std_lookup "DateTime" "timetz" with
-      | Some (1, _) => let '(t, (h, mi, s, us), f, tz) := native_timetz x in [0; tag_code t; h; mi; s; us; Z.b2z f; 1]
-      | _ => [-2]
+      (* through the dispatch model: the override's model (pd_timetz) when the generated table names an override, the native slot otherwise;
+         last component: the result carries the receiver's tzinfo object (None for a naive value) *)
+      match acc_out A_timetz x with
+      | [t; h; mi; s; us; f; tzc] => [0; t; h; mi; s; us; f; Z.b2z (tzc =? tz_code (v_tz x))]
+      | l => l
       end
     | _ => [9]
     end
